@@ -4,9 +4,9 @@
    for every name conversion); [compile] instantiates them with lib/Strcase.v. *)
 From Coq Require Import String List NArith Bool.
 From J5V.lib Require Import Outcome Strcase.
-From J5V.model Require Import J5sAst Desc J5sWalk J5sLink J5sConvert J5sContract J5sValid J5sCorr.
+From J5V.model Require Import J5sAst Desc J5sWalk J5sLink J5sConvert J5sContract J5sSymbols J5sValid J5sCorr.
 From J5V.gen Require ImportsGen.
-From J5V.proofs Require Import J5sProofs J5sContractProofs J5sLinkProofs J5sResolveProofs J5sResolveCompleteProofs J5sServiceProofs J5sTotalProofs J5sCompileProofs J5sSubPkgProofs J5sWitnessProofs.
+From J5V.proofs Require Import J5sProofs J5sContractProofs J5sLinkProofs J5sResolveProofs J5sResolveCompleteProofs J5sServiceProofs J5sTotalProofs J5sSymbolProofs J5sCompileProofs J5sSubPkgProofs J5sWitnessProofs.
 Import ListNotations.
 Local Open Scope N_scope.
 
@@ -175,6 +175,17 @@ Theorem C02_map_entry_type_name : forall nested fpkg scope en,
   link_name nested fpkg scope en = abs_name fpkg (scope ++ [en]).
 Proof. exact link_name_entry. Qed.
 Print Assumptions C02_map_entry_type_name.
+
+(* ---- symbols: whenever a package converts, the linker's symbol table (every message, field,
+   enum, enum value, service and method of the generated files, fully qualified; plus the
+   symbols of the package's hand-written .proto files) is exactly the list of symbols the source
+   declares (J5sSymbols: read off the source with the README naming rules).  The symbol clause
+   of validity - that list has no duplicates - is therefore a statement about the source. *)
+Theorem C02_symbol_table_is_declared : forall snake camel screaming bd pkg fs,
+  convert_package snake camel screaming bd pkg = Ok fs ->
+  package_symbols bd pkg fs = decl_package_symbols snake camel screaming bd pkg.
+Proof. exact package_symbols_declared. Qed.
+Print Assumptions C02_symbol_table_is_declared.
 
 (* ---- acceptance: in a valid bundle every source file of every package converts, and the whole
    package compiles (conversion, link step, link of every imported generated file; the fuel of
